@@ -21,6 +21,12 @@ blocks, and the full statement is FALSE for the code as it is — `Witness.lean`
 negation on the model of `stable_func` with a concrete 21-value block; the theorems below
 are the `_partial` versions with the explicit decidable exclusion `length ≤ blockSize`.
 
+Two former defects of the tree are repaired and now carried at full strength (`HistProps.lean`):
+the `order` global option is scoped to one adaptation (`adapt_history_independent`, old code:
+`order_option_old_code_fails`) and import-argument indices never reach a slice access out of
+range (`args_index_never_panics`, `negative_index_is_out_of_bounds`, old code:
+`args_index_old_code_fails`).
+
 NOT carried by a theorem (implementation-side oracle only; level `partial`): totality of
 the parser and the per-directive unmarshalers on all byte strings, determinism of the
 map-derived parts of the output, loadability of the output.
@@ -29,6 +35,7 @@ import CaddyModel.C16.Spec
 import CaddyModel.C16.Lemmas
 import CaddyModel.C16.Witness
 import CaddyModel.C16.LexProps
+import CaddyModel.C16.HistProps
 
 namespace CaddyModel.C16
 
